@@ -1,7 +1,274 @@
 package alias
 
-import "testing"
+import (
+	"context"
+	"fmt"
+	"testing"
 
-func probeFetcher(t *testing.T, uks []UKind) {}
-func probeScheduler(t *testing.T)            {}
-func probeValidatorAPI(t *testing.T)         {}
+	eth2api "github.com/attestantio/go-eth2-client/api"
+	eth2spec "github.com/attestantio/go-eth2-client/spec"
+	"github.com/attestantio/go-eth2-client/spec/altair"
+	eth2p0 "github.com/attestantio/go-eth2-client/spec/phase0"
+
+	"github.com/obolnetwork/charon/core"
+	"github.com/obolnetwork/charon/core/fetcher"
+	"github.com/obolnetwork/charon/eth2util/eth2exp"
+	"github.com/obolnetwork/charon/testutil"
+	"github.com/obolnetwork/charon/testutil/beaconmock"
+)
+
+// contain runs f and turns a panic into a skip note.
+func contain(what string, f func()) {
+	defer func() {
+		if r := recover(); r != nil {
+			skip("%s: harness panic: %v", what, r)
+		}
+	}()
+	f()
+}
+
+// ---------------------------------------------------------------------------------------------
+// fetcher
+
+type fetchRig struct {
+	f       *fetcher.Fetcher
+	duty    core.Duty
+	defSet  core.DutyDefinitionSet
+	bnRet   []any // what the eth2 client returned to the fetcher
+	queried []any // what the registered query functions (aggsigdb, dutydb) returned to the fetcher
+	outs    [2][]core.UnsignedDataSet
+	pkA     core.PubKey
+	pkB     core.PubKey
+}
+
+// selectionProof finds a signature that makes its holder a sync committee aggregator.
+func selectionProof(t *testing.T, bmock beaconmock.Mock) eth2p0.BLSSignature {
+	t.Helper()
+	for i := 0; i < 10000; i++ {
+		sig := testutil.RandomEth2Signature()
+		ok, err := eth2exp.IsSyncCommAggregator(t.Context(), bmock, sig)
+		if err != nil {
+			panic(err)
+		}
+		if ok {
+			return sig
+		}
+	}
+	panic("no aggregator selection proof found")
+}
+
+// newFetchRig builds a fetcher with two subscribers whose beacon node answers with values of kind k.
+func newFetchRig(t *testing.T, bmock beaconmock.Mock, k UKind, v2 bool) (*fetchRig, error) {
+	t.Helper()
+	r := &fetchRig{duty: core.Duty{Slot: slot0, Type: k.Duty}, pkA: testutil.RandomCorePubKey(t), pkB: testutil.RandomCorePubKey(t)}
+	sample, err := k.New(t, slot0)
+	if err != nil {
+		return nil, err
+	}
+	f, err := fetcher.New(bmock, func(core.PubKey) string { return "0x0000000000000000000000000000000000000000" }, true, &fetcher.GraffitiBuilder{}, 0, false)
+	if err != nil {
+		return nil, err
+	}
+	r.f = f
+	for i := 0; i < 2; i++ {
+		f.Subscribe(func(_ context.Context, _ core.Duty, set core.UnsignedDataSet) error {
+			r.outs[i] = append(r.outs[i], set)
+			return nil
+		})
+	}
+	attDef := func(commIdx eth2p0.CommitteeIndex) core.DutyDefinition {
+		d := testutil.RandomAttestationDuty(t)
+		d.Slot = slot0
+		d.CommitteeIndex = commIdx
+		d.CommitteeLength = 0 // everybody is an aggregator
+
+		return core.NewAttesterDefinition(d)
+	}
+	switch s := sample.(type) {
+	case core.AttestationData:
+		bmock.AttestationDataFunc = func(_ context.Context, slot eth2p0.Slot, idx eth2p0.CommitteeIndex) (*eth2p0.AttestationData, error) {
+			d := testutil.RandomAttestationDataPhase0()
+			d.Slot, d.Index = slot, idx
+			r.bnRet = append(r.bnRet, d)
+
+			return d, nil
+		}
+		// two validators of the same committee: the fetcher reuses one beacon node answer for both
+		r.defSet = core.DutyDefinitionSet{r.pkA: attDef(s.Duty.CommitteeIndex), r.pkB: attDef(s.Duty.CommitteeIndex)}
+	case core.VersionedProposal:
+		bmock.ProposalFunc = func(_ context.Context, opts *eth2api.ProposalOpts) (*eth2api.VersionedProposal, error) {
+			p := rawProposal(s.Version, s.Blinded, uint64(opts.Slot))
+			r.bnRet = append(r.bnRet, p)
+
+			return p, nil
+		}
+		f.RegisterAggSigDB(func(context.Context, core.Duty, core.PubKey, core.SubcommitteeIndex) (core.SignedData, error) {
+			rd := core.NewSignedRandao(slot0/32, testutil.RandomEth2Signature())
+			r.queried = append(r.queried, rd)
+
+			return rd, nil
+		})
+		pd := testutil.RandomProposerDuty(t)
+		pd.Slot = slot0
+		r.defSet = core.DutyDefinitionSet{r.pkA: core.NewProposerDefinition(pd)}
+	case core.VersionedAggregatedAttestation:
+		data := must(s.Data())
+		bmock.AggregateAttestationFunc = func(_ context.Context, _ eth2p0.Slot, _ eth2p0.Root) (*eth2spec.VersionedAttestation, error) {
+			a := rawAttestation(s.Version, slot0, true)
+			a.ValidatorIndex = nil
+			r.bnRet = append(r.bnRet, a)
+
+			return a, nil
+		}
+		f.RegisterAggSigDB(func(context.Context, core.Duty, core.PubKey, core.SubcommitteeIndex) (core.SignedData, error) {
+			sel := testutil.RandomCoreBeaconCommitteeSelection()
+			r.queried = append(r.queried, sel)
+
+			return sel, nil
+		})
+		f.RegisterAwaitAttData(func(context.Context, uint64, uint64) (*eth2p0.AttestationData, error) {
+			d := testutil.RandomAttestationDataPhase0()
+			d.Slot = slot0
+			r.queried = append(r.queried, d)
+
+			return d, nil
+		})
+		r.defSet = core.DutyDefinitionSet{r.pkA: attDef(data.Index), r.pkB: attDef(data.Index)}
+	case core.SyncContribution, core.SyncContributions:
+		proof := selectionProof(t, bmock)
+		root := testutil.RandomRoot()
+		bmock.SyncCommitteeContributionFunc = func(_ context.Context, slot eth2p0.Slot, sub uint64, br eth2p0.Root) (*altair.SyncCommitteeContribution, error) {
+			c := testutil.RandomSyncCommitteeContribution()
+			c.Slot, c.SubcommitteeIndex, c.BeaconBlockRoot = slot, sub, br
+			r.bnRet = append(r.bnRet, c)
+
+			return c, nil
+		}
+		f.RegisterAggSigDB(func(_ context.Context, d core.Duty, _ core.PubKey, sub core.SubcommitteeIndex) (core.SignedData, error) {
+			var out core.SignedData
+			if d.Type == core.DutyPrepareSyncContribution {
+				sel := testutil.RandomSyncCommitteeSelection()
+				sel.Slot, sel.SubcommitteeIndex, sel.SelectionProof = slot0, uint64(sub), proof
+				out = core.NewSyncCommitteeSelection(sel)
+			} else {
+				m := testutil.RandomSyncCommitteeMessage()
+				m.Slot, m.BeaconBlockRoot = slot0, root
+				out = core.NewSignedSyncMessage(m)
+			}
+			r.queried = append(r.queried, out)
+
+			return out, nil
+		})
+		if v2 {
+			f.RegisterSyncContributionV2(func(uint64) bool { return true })
+		}
+		sd := func() core.DutyDefinition {
+			d := testutil.RandomSyncCommitteeDuty(t)
+			d.ValidatorSyncCommitteeIndices = []eth2p0.CommitteeIndex{1, 130} // subcommittees 0 and 1
+			return core.NewSyncCommitteeDefinition(d)
+		}
+		// two validators in the same subcommittees: the fetcher reuses one contribution for both
+		r.defSet = core.DutyDefinitionSet{r.pkA: sd(), r.pkB: sd()}
+	default:
+		return nil, fmt.Errorf("no fetcher rig for %T", sample)
+	}
+
+	return r, nil
+}
+
+func probeFetcher(t *testing.T, uks []UKind) {
+	t.Helper()
+	bmock, err := beaconmock.New(t.Context())
+	if err != nil {
+		skip("fetcher: beaconmock unavailable: %v", err)
+		return
+	}
+	defer func() { _ = bmock.Close() }()
+
+	for _, k := range uks {
+		v2 := k.Name == "SyncContributions"
+		run := func(path, shape string, early bool, pick func(r *fetchRig) (Named, []Named)) {
+			contain("fetcher "+k.Name, func() {
+				r, err := newFetchRig(t, bmock, k, v2)
+				if err != nil {
+					skip("fetcher %s: %v", k.Name, err)
+					return
+				}
+				ctx := t.Context()
+				if early {
+					if k.Duty != core.DutyAttester {
+						return
+					}
+					// FetchOnly caches only when the data votes for the announced head: ask once to learn the root
+					var head eth2p0.Root
+					orig := bmock.AttestationDataFunc
+					fixed := testutil.RandomRoot()
+					bmock.AttestationDataFunc = func(ctx context.Context, s eth2p0.Slot, i eth2p0.CommitteeIndex) (*eth2p0.AttestationData, error) {
+						d, err := orig(ctx, s, i)
+						if d != nil {
+							d.BeaconBlockRoot = fixed
+						}
+
+						return d, err
+					}
+					head = fixed
+					if err := r.f.FetchOnly(ctx, r.duty, r.defSet, "", head); err != nil {
+						skip("fetcher %s: FetchOnly fails: %v", k.Name, err)
+						return
+					}
+					n := len(r.bnRet)
+					if err := r.f.Fetch(ctx, r.duty, r.defSet); err != nil {
+						skip("fetcher %s: Fetch after FetchOnly fails: %v", k.Name, err)
+						return
+					}
+					if len(r.bnRet) != n {
+						skip("fetcher %s: Fetch after FetchOnly asked the beacon node again (cache not used)", k.Name)
+						return
+					}
+				} else if err := r.f.Fetch(ctx, r.duty, r.defSet); err != nil {
+					skip("fetcher %s: Fetch fails: %v", k.Name, err)
+					return
+				}
+				if len(r.outs[0]) != 1 || len(r.outs[1]) != 1 || len(r.outs[0][0]) == 0 {
+					skip("fetcher %s: subscribers called %d/%d times", k.Name, len(r.outs[0]), len(r.outs[1]))
+					return
+				}
+				a, held := pick(r)
+				observe(path, k.Name, shape, a, held, nil)
+			})
+		}
+		subs := func(r *fetchRig) []Named {
+			return []Named{{"subscriber 1 set", r.outs[0][0]}, {"subscriber 2 set", r.outs[1][0]}}
+		}
+		for _, early := range []bool{false, true} {
+			via := "fetcher.Fetch"
+			if early {
+				via = "fetcher.FetchOnly+Fetch"
+			}
+			run(via+"(eth2 client answer)>subscriber", "direct", early, func(r *fetchRig) (Named, []Named) {
+				return Named{"values returned by the eth2 client", r.bnRet}, subs(r)
+			})
+			run(via+"(duty definition argument)>subscriber", "direct", early, func(r *fetchRig) (Named, []Named) {
+				return Named{"Fetch duty definition set argument", r.defSet}, subs(r)
+			})
+			run(via+">subscriber|subscriber", "sibling", early, func(r *fetchRig) (Named, []Named) {
+				return Named{"subscriber 1 set", r.outs[0][0]}, []Named{{"subscriber 2 set", r.outs[1][0]},
+					{"values returned by the eth2 client", r.bnRet}, {"Fetch duty definition set argument", r.defSet}, {"query results given to the fetcher", r.queried}}
+			})
+			run(via+">subscriber(validator A entry|validator B entry)", "sibling", early, func(r *fetchRig) (Named, []Named) {
+				set := r.outs[0][0]
+				if len(set) < 2 {
+					return Named{"subscriber 1 entry of validator A", set[r.pkA]}, []Named{{"subscriber 2 entry of validator A", r.outs[1][0][r.pkA]}}
+				}
+
+				return Named{"subscriber 1 entry of validator A", set[r.pkA]}, []Named{{"subscriber 1 entry of validator B", set[r.pkB]}}
+			})
+		}
+		run("fetcher.Fetch(query results)>subscriber", "direct", false, func(r *fetchRig) (Named, []Named) {
+			return Named{"query results given to the fetcher", r.queried}, subs(r)
+		})
+	}
+}
+
+func probeScheduler(t *testing.T)    {}
+func probeValidatorAPI(t *testing.T) {}
